@@ -7,6 +7,10 @@ package topologyaware
 // real buildPoolsByTopology is well-formed.
 
 import (
+	cfgapi "github.com/containers/nri-plugins/pkg/apis/config/v1alpha1/resmgr/policy/topologyaware"
+	"github.com/containers/nri-plugins/pkg/cpuallocator"
+	libmem "github.com/containers/nri-plugins/pkg/resmgr/lib/memory"
+	system "github.com/containers/nri-plugins/pkg/sysfs"
 	"github.com/containers/nri-plugins/pkg/utils/cpuset"
 	idset "github.com/intel/goresctrl/pkg/utils"
 )
@@ -43,7 +47,11 @@ func VerifC16Tree() {
 	sys, _, ncpu := verifMachine(machine)
 	allowed, reserved, isolated := verifSymbolicConstraints(ncpu, verifParam("constraints", 2))
 	w := verifNewPolicy(machine, allowed, reserved, isolated, verifDefaultConfig())
-	p := w.p
+	verifC16CheckTree(w.p, machine, sys, allowed, reserved, isolated)
+}
+
+// verifC16CheckTree asserts the C16 tree sentences on the pools of p.
+func verifC16CheckTree(p *policy, machine int, sys system.System, allowed, reserved, isolated cpuset.CPUSet) {
 	verifCover("tree-built")
 
 	// shape
@@ -123,4 +131,70 @@ func VerifC16Tree() {
 		}
 		verifAssert("C16.cpuless-pmem-follows-closest-dram", attachOK)
 	}
+}
+
+// kernel-isolated CPU sets of the fake machines used by VerifC16Constraints
+var verifC16Isolated = [][]int{nil, {7}, {0, 1}, {2, 3, 6}, {0}, {4, 5, 6, 7}}
+
+// available / reserved settings as they are written in the configuration
+var verifC16Available = []string{"", "cpuset:0-7", "cpuset:1-7", "cpuset:0-5", "cpuset:2-3,6-7", "cpuset:4", "750m", "cpuset:0-"}
+var verifC16Reserved = []string{"750m", "1", "2", "2500m", "4", "cpuset:0", "cpuset:1,5", "cpuset:7", "cpuset:0-1", "cpuset:3,6", "cpuset:8", "", "9", "cpuset:x"}
+
+// VerifC16Constraints: the real checkConstraints turns the configured
+// available / reserved settings (cpusets or quantities) on machines with
+// kernel-isolated CPUs into the allowed / reserved / isolated sets; for every
+// setting it accepts (except a reserved cpuset that is itself isolated) the
+// sets are consistent and the pool tree built from them is well-formed.
+func VerifC16Constraints() {
+	machine := []int{0, 1, 2, 5}[verifChoice("machine", verifParam("cmachines", 4))]
+	isolatedIDs := verifC16Isolated[verifChoice("isolated", verifParam("isolatedSets", len(verifC16Isolated)))]
+	verifIsolatedCPUs = isolatedIDs
+	sys, mnodes, _ := verifMachineMem(machine, nil)
+	verifIsolatedCPUs = nil
+	cfg := verifDefaultConfig()
+	avail := verifC16Available[verifChoice("available", verifParam("availables", len(verifC16Available)))]
+	resv := verifC16Reserved[verifChoice("reserved", verifParam("reserveds", len(verifC16Reserved)))]
+	if avail != "" {
+		cfg.AvailableResources = cfgapi.Constraints{cfgapi.CPU: cfgapi.Amount(avail)}
+	}
+	if resv != "" {
+		cfg.ReservedResources = cfgapi.Constraints{cfgapi.CPU: cfgapi.Amount(resv)}
+	}
+	c := &verifCache{containers: map[string]*verifContainer{}}
+	p := &policy{cfg: cfg, cache: c, sys: sys}
+	p.cpuAllocator = cpuallocator.NewCPUAllocator(sys)
+	ma, err := libmem.NewAllocator(libmem.WithNodes(mnodes))
+	if err != nil {
+		panic(err)
+	}
+	p.memAllocator = ma
+	opt = cfg
+	defaultPrio = cfg.DefaultCPUPriority.Value()
+	p.allocations = p.newAllocations()
+
+	if err := p.checkConstraints(); err != nil {
+		verifCover("constraints-rejected")
+		return
+	}
+	verifCover("constraints-accepted")
+	sysIsolated := cpuset.New(isolatedIDs...)
+	byQuantity := len(resv) < 7 || resv[:7] != "cpuset:"
+	if !byQuantity && !p.reserved.Intersection(sysIsolated).IsEmpty() {
+		// a reserved cpuset that is itself kernel-isolated: outside the property
+		verifCover("reserved-cpuset-isolated")
+		return
+	}
+	verifAssert("C16.constraints.allowed-online", p.allowed.IsSubsetOf(sys.CPUSet()))
+	verifAssert("C16.constraints.isolated-is-kernel-isolated-and-allowed", p.isolated.Equals(sysIsolated.Intersection(p.allowed)))
+	verifAssert("C16.constraints.reserved-nonempty-allowed", !p.reserved.IsEmpty() && p.reserved.IsSubsetOf(p.allowed))
+	verifAssert("C16.constraints.reserved-not-isolated", p.reserved.Intersection(p.isolated).IsEmpty())
+	if byQuantity {
+		verifCover("reserved-by-quantity")
+		verifAssert("C16.constraints.reserved-count-covers-quantity", p.reserved.Size() == p.reserveCnt && p.reserveCnt >= 1)
+	}
+	if err := p.buildPoolsByTopology(); err != nil {
+		verifAssert("C16.constraints.accepted-config-builds-pools", false)
+		return
+	}
+	verifC16CheckTree(p, machine, sys, p.allowed, p.reserved, p.isolated)
 }
